@@ -15,8 +15,10 @@ import (
 	"github.com/pion/webrtc/v4"
 )
 
-// PeerConnection scenarios shared by C10 and C16: a first offer, or an answer
-// to a generated remote offer, in signalling-only mode.
+// PeerConnection scenarios shared by C10 and C16: a first offer, or a history
+// of answered remote offers (mixed directions, local transceivers added before
+// and between the offers, so that later offers meet transceivers that already
+// have a mid), in signalling-only mode.
 
 type pcExtReg struct {
 	URI  string `json:"uri"`
@@ -30,13 +32,21 @@ type pcTrans struct {
 	Prefs []cdc `json:"prefs"`
 }
 
+// an earlier exchange: SetRemoteDescription(offer Remote), CreateAnswer,
+// SetLocalDescription(answer); then Locals are added
+type pcRound struct {
+	Remote []rsec    `json:"remote"`
+	Locals []pcTrans `json:"locals,omitempty"`
+}
+
 type pcCase struct {
 	Video  []cdc      `json:"video"`
 	Audio  []cdc      `json:"audio"`
 	Multi  bool       `json:"multi"`
 	Exts   []pcExtReg `json:"exts"`
-	Locals []pcTrans  `json:"locals"`
-	Answer bool       `json:"answer"` // false: CreateOffer; true: answer Remote
+	Locals []pcTrans  `json:"locals"`        // added first
+	Pre    []pcRound  `json:"pre,omitempty"` // earlier exchanges (answer cases only)
+	Answer bool       `json:"answer"`        // false: CreateOffer; true: answer Remote
 	Remote []rsec     `json:"remote"`
 }
 
@@ -50,12 +60,23 @@ type pcSection struct {
 	Exts     []rext
 }
 
-type pcResult struct {
-	PrefErr  []bool
+// one SetRemoteDescription(offer) / CreateAnswer / SetLocalDescription(answer)
+type pcExchange struct {
+	Offer    []rsec
 	Outcome  string // ok | srd:<class> | create:<class>
 	Sections []pcSection
-	Assoc    []int // answer: index of the local transceiver given to remote section i, -1 = created from the remote description
-	Setup    string
+	Trans    []int // per offered section: position in GetTransceivers() of the transceiver that has its mid after SetRemoteDescription (-1: none)
+	Local    []int // per offered section: index into pcResult.Added of that transceiver, -1 = SetRemoteDescription created it (now or earlier)
+}
+
+type pcResult struct {
+	Added     []pcTrans   // the transceivers AddTransceiverFromKind returned, in order
+	LocalObs  [][][2]bool // per group of local additions (first, then after each earlier exchange): (add failed, preferences refused)
+	Exchanges []pcExchange
+	Reached   bool        // the last step (CreateOffer / the last exchange) was reached
+	Outcome   string      // CreateOffer cases: ok | create:<class>
+	Sections  []pcSection // CreateOffer cases
+	Setup     string
 }
 
 var pcOnce sync.Once
@@ -77,12 +98,25 @@ func pcDirection(d int) webrtc.RTPTransceiverDirection {
 	return webrtc.RTPTransceiverDirectionRecvonly
 }
 
+// direction attribute of an offered section: 0 (absent in the case) = sendrecv
+func pcOfferDir(d int) string {
+	switch d {
+	case 1:
+		return "recvonly"
+	case 3:
+		return "sendonly"
+	case 4:
+		return "inactive"
+	}
+	return "sendrecv"
+}
+
 const pcFingerprint = "a=fingerprint:sha-256 0F:74:31:25:CB:A2:13:EC:28:6F:6D:2C:61:FF:5D:C2:BC:B9:DB:3D:98:14:8D:1A:BB:EA:33:0C:A4:60:A8:8E\r\n"
 
-// pcOfferSDP renders the remote offer: one sendrecv section per rsec, mid = index
-func pcOfferSDP(secs []rsec) string {
+// pcOfferSDP renders a remote offer: one section per rsec, mid = index
+func pcOfferSDP(secs []rsec, version int) string {
 	var b strings.Builder
-	b.WriteString("v=0\r\no=- 4215775240449105457 2 IN IP4 127.0.0.1\r\ns=-\r\nt=0 0\r\n")
+	fmt.Fprintf(&b, "v=0\r\no=- 4215775240449105457 %d IN IP4 127.0.0.1\r\ns=-\r\nt=0 0\r\n", version)
 	b.WriteString(pcFingerprint)
 	mids := make([]string, len(secs))
 	for i := range secs {
@@ -92,7 +126,7 @@ func pcOfferSDP(secs []rsec) string {
 	for i, s := range secs {
 		md := s.media()
 		fmt.Fprintf(&b, "m=%s 9 UDP/TLS/RTP/SAVPF %s\r\nc=IN IP4 0.0.0.0\r\na=setup:actpass\r\na=mid:%d\r\n", s.Kind, strings.Join(md.MediaName.Formats, " "), i)
-		b.WriteString("a=ice-ufrag:remoteufrag\r\na=ice-pwd:remotepasswordremotepassword\r\na=rtcp-mux\r\na=sendrecv\r\n")
+		b.WriteString("a=ice-ufrag:remoteufrag\r\na=ice-pwd:remotepasswordremotepassword\r\na=rtcp-mux\r\na=" + pcOfferDir(s.Dir) + "\r\n")
 		for _, a := range md.Attributes {
 			b.WriteString("a=" + a.Key + ":" + a.Value + "\r\n")
 		}
@@ -145,26 +179,81 @@ func pcErrClass(err error) string {
 	return "other:" + err.Error()
 }
 
-// the harness's own reading of findByMid / satisfyTypeAndDirection for fresh
-// local transceivers and an all-sendrecv offer
-func pcAssociate(locals []pcTrans, remote []rsec) []int {
-	used := make([]bool, len(locals))
-	out := make([]int, len(remote))
-	for i, s := range remote {
-		out[i] = -1
-		k := kindZ(s.Kind)
-	search:
-		for _, want := range []int{1, 2, 3} { // recvonly, sendrecv, sendonly
-			for j, l := range locals {
-				if !used[j] && l.Kind == k && l.Dir == want {
-					used[j] = true
-					out[i] = j
-					break search
+type pcRunner struct {
+	pc    *webrtc.PeerConnection
+	added []*webrtc.RTPTransceiver
+	res   *pcResult
+}
+
+// AddTransceiverFromKind + SetCodecPreferences for a group of locals
+func (p *pcRunner) addLocals(ls []pcTrans) bool {
+	obs := [][2]bool{}
+	for _, l := range ls {
+		t, err := p.pc.AddTransceiverFromKind(kindType(l.Kind), webrtc.RTPTransceiverInit{Direction: pcDirection(l.Dir)})
+		if errors.Is(err, webrtc.ErrNoCodecsAvailable) {
+			obs = append(obs, [2]bool{true, false})
+			continue
+		}
+		if err != nil {
+			p.res.Setup = "add-transceiver: " + err.Error()
+			return false
+		}
+		p.added = append(p.added, t)
+		p.res.Added = append(p.res.Added, l)
+		obs = append(obs, [2]bool{false, t.SetCodecPreferences(paramsOf(l.Prefs)) != nil})
+	}
+	p.res.LocalObs = append(p.res.LocalObs, obs)
+	return true
+}
+
+// one exchange; false = the history ends here
+func (p *pcRunner) exchange(offer []rsec, version int) bool {
+	ex := pcExchange{Offer: offer, Outcome: "ok"}
+	defer func() { p.res.Exchanges = append(p.res.Exchanges, ex) }()
+	if err := p.pc.SetRemoteDescription(webrtc.SessionDescription{Type: webrtc.SDPTypeOffer, SDP: pcOfferSDP(offer, version)}); err != nil {
+		ex.Outcome = "srd:" + pcErrClass(err)
+		return false
+	}
+	drain(p.pc)
+	trs := p.pc.GetTransceivers()
+	for i := range offer {
+		ti, li := -1, -1
+		for j, t := range trs {
+			if t.Mid() == strconv.Itoa(i) {
+				ti = j
+				for a, at := range p.added {
+					if at == t {
+						li = a
+					}
 				}
+				break
 			}
 		}
+		ex.Trans = append(ex.Trans, ti)
+		ex.Local = append(ex.Local, li)
 	}
-	return out
+	ans, err := p.pc.CreateAnswer(nil)
+	if err != nil {
+		ex.Outcome = "create:" + pcErrClass(err)
+		return false
+	}
+	secs, err := pcParseSections(ans.SDP)
+	if err != nil {
+		ex.Outcome = "unparsable:" + err.Error()
+		return false
+	}
+	ex.Sections = secs
+	// SetLocalDescription(answer) changes the signalling state and the current
+	// directions before it starts the senders; a sender that cannot start (its
+	// track's codec has no payloader, or is not among the negotiated ones) makes
+	// it return that error afterwards, which does not concern the sections
+	if err := p.pc.SetLocalDescription(ans); err != nil &&
+		!errors.Is(err, webrtc.ErrNoPayloaderForCodec) && !errors.Is(err, webrtc.ErrUnsupportedCodec) {
+		p.res.Setup = "set-local-answer: " + err.Error()
+		return false
+	}
+	drain(p.pc)
+	return true
 }
 
 func pcRun(c pcCase) pcResult {
@@ -197,41 +286,36 @@ func pcRun(c pcCase) pcResult {
 		panic(err)
 	}
 	defer func() { _ = pc.Close() }()
-	for _, l := range c.Locals {
-		t, err := pc.AddTransceiverFromKind(kindType(l.Kind), webrtc.RTPTransceiverInit{Direction: pcDirection(l.Dir)})
-		if err != nil {
-			res.Setup = "add-transceiver: " + err.Error()
-			return res
-		}
-		res.PrefErr = append(res.PrefErr, t.SetCodecPreferences(paramsOf(l.Prefs)) != nil)
+	run := &pcRunner{pc: pc, res: &res}
+	if !run.addLocals(c.Locals) {
+		return res
 	}
-	var text string
 	if !c.Answer {
+		res.Reached = true
 		off, err := pc.CreateOffer(nil)
 		if err != nil {
 			res.Outcome = "create:" + pcErrClass(err)
 			return res
 		}
-		text = off.SDP
-	} else {
-		res.Assoc = pcAssociate(c.Locals, c.Remote)
-		if err := pc.SetRemoteDescription(webrtc.SessionDescription{Type: webrtc.SDPTypeOffer, SDP: pcOfferSDP(c.Remote)}); err != nil {
-			res.Outcome = "srd:" + pcErrClass(err)
-			return res
-		}
-		ans, err := pc.CreateAnswer(nil)
+		secs, err := pcParseSections(off.SDP)
 		if err != nil {
-			res.Outcome = "create:" + pcErrClass(err)
+			res.Outcome = "unparsable:" + err.Error()
 			return res
 		}
-		text = ans.SDP
-	}
-	secs, err := pcParseSections(text)
-	if err != nil {
-		res.Outcome = "unparsable:" + err.Error()
+		res.Sections = secs
 		return res
 	}
-	res.Sections = secs
+	for k, round := range c.Pre {
+		if !run.exchange(round.Remote, k+2) {
+			res.LocalObs = append(res.LocalObs, [][2]bool{})
+			return res
+		}
+		if !run.addLocals(round.Locals) {
+			return res
+		}
+	}
+	res.Reached = true
+	run.exchange(c.Remote, len(c.Pre)+2)
 	return res
 }
 
@@ -340,38 +424,117 @@ func pcObsSection(s pcSection, canon bool) V {
 	return VL{VB(s.Rejected), fv, lv, ev}
 }
 
+func pcObsLocals(l [][2]bool) V {
+	out := VL{}
+	for _, o := range l {
+		out = append(out, VL{VB(o[0]), VB(o[1])})
+	}
+	return out
+}
+
+func pcObsExchange(ex pcExchange) V {
+	if strings.HasPrefix(ex.Outcome, "srd:") {
+		return VL{VS(ex.Outcome)}
+	}
+	idx := VL{}
+	for _, t := range ex.Trans {
+		idx = append(idx, VZ(int64(t)))
+	}
+	if ex.Outcome != "ok" {
+		return VL{idx, VS(ex.Outcome)}
+	}
+	secs := make(VL, len(ex.Sections))
+	for i, s := range ex.Sections {
+		secs[i] = pcObsSection(s, i < len(ex.Local) && ex.Local[i] < 0)
+	}
+	return VL{idx, VS("ok"), secs}
+}
+
 func pcObs(c pcCase, r pcResult) V {
-	pe := make(VL, len(r.PrefErr))
-	for i, b := range r.PrefErr {
-		pe[i] = VB(b)
+	first := VL{}
+	if len(r.LocalObs) > 0 {
+		first = pcObsLocals(r.LocalObs[0]).(VL)
 	}
-	if r.Outcome != "ok" {
-		return VL{pe, VS(r.Outcome)}
+	rounds := VL{}
+	final := V(VL{VS("not-reached")})
+	if !c.Answer {
+		if r.Outcome != "ok" {
+			final = VL{VS(r.Outcome)}
+		} else {
+			secs := make(VL, len(r.Sections))
+			for i, s := range r.Sections {
+				secs[i] = pcObsSection(s, false)
+			}
+			final = VL{VS("ok"), secs}
+		}
+		return VL{first, rounds, final}
 	}
-	secs := make(VL, len(r.Sections))
-	for i, s := range r.Sections {
-		canon := c.Answer && i < len(r.Assoc) && r.Assoc[i] < 0
-		secs[i] = pcObsSection(s, canon)
+	for k, ex := range r.Exchanges {
+		if k == len(c.Pre) {
+			final = pcObsExchange(ex)
+			break
+		}
+		locals := V(VL{})
+		if k+1 < len(r.LocalObs) {
+			locals = pcObsLocals(r.LocalObs[k+1])
+		}
+		rounds = append(rounds, VL{pcObsExchange(ex), locals})
 	}
-	return VL{pe, VS("ok"), secs}
+	return VL{first, rounds, final}
+}
+
+func pcCoqLocals(ls []pcTrans) string {
+	out := make([]string, len(ls))
+	for i, l := range ls {
+		out[i] = fmt.Sprintf("(%d, %d, %s)", l.Kind, l.Dir, coqCodecs(l.Prefs))
+	}
+	return CoqList(out)
+}
+
+func pcCoqOffer(secs []rsec) (string, bool) {
+	rs := make([]string, len(secs))
+	for i, s := range secs {
+		got, err := webrtc.VerifCodecsFromMediaDescription(s.media())
+		if err != nil || !cdcsASCII(cdcsOf(got)) || kindZ(s.Kind) == 0 {
+			return "", false
+		}
+		es := make([]string, len(s.Exts))
+		for j, e := range s.Exts {
+			es[j] = fmt.Sprintf("(%d, %s)", e.ID, coqStr(e.URI))
+		}
+		d := s.Dir
+		if d == 0 {
+			d = 2
+		}
+		rs[i] = fmt.Sprintf("(%d, %d, %s, %s)", kindZ(s.Kind), d, coqCodecs(cdcsOf(got)), CoqList(es))
+	}
+	return CoqList(rs), true
 }
 
 func pcCoq(c pcCase) string {
 	if !cdcsASCII(c.Video) || !cdcsASCII(c.Audio) {
 		return ""
 	}
-	for _, l := range c.Locals {
-		if !cdcsASCII(l.Prefs) {
-			return ""
-		}
-		// sendrecv / sendonly transceivers need a registered codec to make their track
-		if l.Dir != 1 {
-			table := c.Video
-			if l.Kind == 1 {
-				table = c.Audio
-			}
-			if len(table) == 0 || !strings.HasPrefix(table[0].Mime, pcKindName(l.Kind)+"/") {
+	groups := [][]pcTrans{c.Locals}
+	for _, round := range c.Pre {
+		groups = append(groups, round.Locals)
+	}
+	for _, g := range groups {
+		for _, l := range g {
+			if !cdcsASCII(l.Prefs) {
 				return ""
+			}
+			// a sending transceiver's track takes its kind from the first codec's mime
+			// prefix, case-sensitively: a registered table that starts with another
+			// letter case is outside the model
+			if l.Dir != 1 {
+				table := c.Video
+				if l.Kind == 1 {
+					table = c.Audio
+				}
+				if len(table) > 0 && !strings.HasPrefix(table[0].Mime, pcKindName(l.Kind)+"/") {
+					return ""
+				}
 			}
 		}
 	}
@@ -383,33 +546,24 @@ func pcCoq(c pcCase) string {
 		}
 		xs[i] = fmt.Sprintf("(%s, %d, %s)", coqStr(e.URI), e.Kind, CoqList(ds))
 	}
-	ls := make([]string, len(c.Locals))
-	for i, l := range c.Locals {
-		ls[i] = fmt.Sprintf("(%d, %d, %s)", l.Kind, l.Dir, coqCodecs(l.Prefs))
+	rounds := make([]string, len(c.Pre))
+	for i, round := range c.Pre {
+		o, ok := pcCoqOffer(round.Remote)
+		if !ok {
+			return ""
+		}
+		rounds[i] = fmt.Sprintf("(%s, %s)", o, pcCoqLocals(round.Locals))
 	}
 	remote := "None"
 	if c.Answer {
-		assoc := pcAssociate(c.Locals, c.Remote)
-		rs := make([]string, len(c.Remote))
-		for i, s := range c.Remote {
-			got, err := webrtc.VerifCodecsFromMediaDescription(s.media())
-			if err != nil || !cdcsASCII(cdcsOf(got)) || kindZ(s.Kind) == 0 {
-				return ""
-			}
-			es := make([]string, len(s.Exts))
-			for j, e := range s.Exts {
-				es[j] = fmt.Sprintf("(%d, %s)", e.ID, coqStr(e.URI))
-			}
-			a := "None"
-			if assoc[i] >= 0 {
-				a = fmt.Sprintf("(Some %d%%nat)", assoc[i])
-			}
-			rs[i] = fmt.Sprintf("(%d, %s, %s, %s)", kindZ(s.Kind), coqCodecs(cdcsOf(got)), CoqList(es), a)
+		o, ok := pcCoqOffer(c.Remote)
+		if !ok {
+			return ""
 		}
-		remote = "(Some " + CoqList(rs) + ")"
+		remote = "(Some " + o + ")"
 	}
-	return fmt.Sprintf("(%s, %s, %s, %s, %s, %s)", coqCodecs(c.Video), coqCodecs(c.Audio), CoqBool(c.Multi),
-		CoqList(xs), CoqList(ls), remote)
+	return fmt.Sprintf("(%s, %s, %s, %s, %s, %s, %s)", coqCodecs(c.Video), coqCodecs(c.Audio), CoqBool(c.Multi),
+		CoqList(xs), pcCoqLocals(c.Locals), CoqList(rounds), remote)
 }
 
 // ---------- generation ----------
@@ -428,8 +582,9 @@ var pcURIs = []string{
 func pcGenExts(r *Rand, many bool) []pcExtReg {
 	var out []pcExtReg
 	n := r.Range(0, 5)
+	main := r.Range(1, 2)
 	if many {
-		n = r.Range(12, 18)
+		n = r.Range(13, 20) // around the 14 one-byte ids, mostly for one kind
 	}
 	for i := 0; i < n; i++ {
 		uri := Pick(r, pcURIs)
@@ -437,6 +592,13 @@ func pcGenExts(r *Rand, many bool) []pcExtReg {
 			uri = fmt.Sprintf("urn:x:ext:%d", r.Intn(24))
 		}
 		e := pcExtReg{URI: uri, Kind: r.Range(1, 2)}
+		if many {
+			uri = fmt.Sprintf("urn:x:ext:%d", i)
+			e = pcExtReg{URI: uri, Kind: main}
+			if r.Chance(1, 8) {
+				e.Kind = 3 - main
+			}
+		}
 		switch r.Intn(6) {
 		case 0:
 			e.Dirs = []int{1}
@@ -531,20 +693,9 @@ func pcGenRemoteExts(r *Rand, regs []pcExtReg, kind int) []rext {
 	return out
 }
 
-func pcGen(r *Rand, answer bool) pcCase {
-	c := pcCase{Multi: !r.Chance(1, 6), Answer: answer}
-	if !r.Chance(1, 10) {
-		c.Video = genLocalTable(r, "video", 4)
-	}
-	if !r.Chance(1, 6) {
-		c.Audio = genLocalTable(r, "audio", 3)
-	}
-	c.Exts = pcGenExts(r, r.Chance(1, 12))
-	nl := r.Range(0, 3)
-	if !answer {
-		nl = r.Range(1, 3)
-	}
-	for i := 0; i < nl; i++ {
+func pcGenLocals(r *Rand, c *pcCase, lo, hi int) []pcTrans {
+	var out []pcTrans
+	for n := r.Range(lo, hi); n > 0; n-- {
 		k := r.Range(1, 2)
 		table := c.Video
 		if k == 1 {
@@ -556,36 +707,113 @@ func pcGen(r *Rand, answer bool) pcCase {
 		if len(table) > 0 && strings.HasPrefix(table[0].Mime, pcKindName(k)+"/") && r.Chance(1, 3) {
 			t.Dir = r.Range(2, 3)
 		}
-		c.Locals = append(c.Locals, t)
+		out = append(out, t)
 	}
-	if answer {
-		remap := r.Chance(1, 2)
-		ns := r.Range(1, 3)
-		for i := 0; i < ns; i++ {
-			k := r.Range(1, 2)
-			table := c.Video
-			if k == 1 {
-				table = c.Audio
-			}
-			s := rsec{Kind: pcKindName(k), Codecs: genOffer(r, pcKindName(k), table, remap)}
-			// a well-formed offer lists a payload type once (clashing payload types
-			// are exercised on the MediaEngine directly in C15's engine suite)
-			seenPT := map[uint8]bool{}
-			uniq := s.Codecs[:0]
-			for _, oc := range s.Codecs {
-				if !seenPT[oc.PT] {
-					seenPT[oc.PT] = true
-					uniq = append(uniq, oc)
-				}
-			}
-			s.Codecs = uniq
-			if len(s.Codecs) == 0 { // an m= line needs a format; "0" would mean static PCMU
-				s.Codecs = []rcodec{{Name: "unknown-codec", Clock: 90000, PT: 126}}
-			}
-			s.Exts = pcGenRemoteExts(r, c.Exts, k)
-			c.Remote = append(c.Remote, s)
+	return out
+}
+
+func pcGenDir(r *Rand) int {
+	switch r.Intn(10) {
+	case 0, 1:
+		return 1 // recvonly
+	case 2, 3:
+		return 3 // sendonly
+	case 4:
+		return 4 // inactive
+	}
+	return 2
+}
+
+func pcGenSection(r *Rand, c *pcCase, k int, remap bool) rsec {
+	table := c.Video
+	if k == 1 {
+		table = c.Audio
+	}
+	s := rsec{Kind: pcKindName(k), Codecs: genOffer(r, pcKindName(k), table, remap), Dir: pcGenDir(r)}
+	// a well-formed offer lists a payload type once (clashing payload types
+	// are exercised on the MediaEngine directly in C15's engine suite)
+	seenPT := map[uint8]bool{}
+	uniq := s.Codecs[:0]
+	for _, oc := range s.Codecs {
+		if !seenPT[oc.PT] {
+			seenPT[oc.PT] = true
+			uniq = append(uniq, oc)
 		}
 	}
+	s.Codecs = uniq
+	if len(s.Codecs) == 0 { // an m= line needs a format; "0" would mean static PCMU
+		s.Codecs = []rcodec{{Name: "unknown-codec", Clock: 90000, PT: 126}}
+	}
+	s.Exts = pcGenRemoteExts(r, c.Exts, k)
+	return s
+}
+
+// the next offer of the same remote: the sections it already offered keep their
+// mid and kind; usually their codecs too (sometimes fewer of them, sometimes a
+// fresh list, possibly under other payload types), the direction may change;
+// sometimes new sections follow
+func pcGenReoffer(r *Rand, c *pcCase, prev []rsec, remap bool) []rsec {
+	out := make([]rsec, len(prev))
+	for i, s := range prev {
+		n := rsec{Kind: s.Kind, Codecs: append([]rcodec{}, s.Codecs...), Exts: append([]rext{}, s.Exts...), Dir: s.Dir}
+		switch r.Intn(8) {
+		case 0:
+			n = pcGenSection(r, c, kindZ(s.Kind), remap)
+		case 1:
+			if len(n.Codecs) > 1 {
+				k := r.Intn(len(n.Codecs))
+				n.Codecs = append(n.Codecs[:k], n.Codecs[k+1:]...)
+			}
+		case 2:
+			n.Exts = pcGenRemoteExts(r, c.Exts, kindZ(s.Kind))
+		}
+		if r.Chance(1, 3) {
+			n.Dir = pcGenDir(r)
+		}
+		out[i] = n
+	}
+	for n := r.Intn(3); n > 0 && len(out) < 4; n-- {
+		out = append(out, pcGenSection(r, c, r.Range(1, 2), remap))
+	}
+	return out
+}
+
+func pcGen(r *Rand, answer bool) pcCase {
+	c := pcCase{Multi: !r.Chance(1, 6), Answer: answer}
+	if !r.Chance(1, 10) {
+		c.Video = genLocalTable(r, "video", 4)
+	}
+	if !r.Chance(1, 6) {
+		c.Audio = genLocalTable(r, "audio", 3)
+	}
+	c.Exts = pcGenExts(r, r.Chance(1, 12))
+	if !answer {
+		c.Locals = pcGenLocals(r, &c, 1, 3)
+		return c
+	}
+	c.Locals = pcGenLocals(r, &c, 0, 3)
+	remap := r.Chance(1, 2)
+	var offer []rsec
+	for n := r.Range(1, 3); n > 0; n-- {
+		offer = append(offer, pcGenSection(r, &c, r.Range(1, 2), remap))
+	}
+	// earlier exchanges: the last offer then meets transceivers that already have
+	// a mid (created from the earlier offers or matched to them) next to fresh ones
+	rounds := 0
+	switch r.Intn(5) {
+	case 0, 1:
+		rounds = 1
+	case 2:
+		rounds = 2
+	}
+	for i := 0; i < rounds; i++ {
+		c.Pre = append(c.Pre, pcRound{Remote: offer, Locals: pcGenLocals(r, &c, 0, 2)})
+		if r.Chance(1, 5) {
+			remap = !remap
+		}
+		offer = pcGenReoffer(r, &c, offer, remap)
+	}
+	c.Remote = offer
 	return c
 }
 
@@ -600,11 +828,70 @@ func pcShrink(c pcCase) []pcCase {
 		for i, l := range c.Locals {
 			x.Locals[i] = pcTrans{Kind: l.Kind, Dir: l.Dir, Prefs: append([]cdc{}, l.Prefs...)}
 		}
-		x.Remote = make([]rsec, len(c.Remote))
-		for i, s := range c.Remote {
-			x.Remote[i] = rsec{Kind: s.Kind, Codecs: append([]rcodec{}, s.Codecs...), Exts: append([]rext{}, s.Exts...)}
+		cpSecs := func(in []rsec) []rsec {
+			o := make([]rsec, len(in))
+			for i, s := range in {
+				o[i] = rsec{Kind: s.Kind, Codecs: append([]rcodec{}, s.Codecs...), Exts: append([]rext{}, s.Exts...), Dir: s.Dir}
+			}
+			return o
+		}
+		x.Remote = cpSecs(c.Remote)
+		x.Pre = make([]pcRound, len(c.Pre))
+		for i, p := range c.Pre {
+			x.Pre[i] = pcRound{Remote: cpSecs(p.Remote)}
+			for _, l := range p.Locals {
+				x.Pre[i].Locals = append(x.Pre[i].Locals, pcTrans{Kind: l.Kind, Dir: l.Dir, Prefs: append([]cdc{}, l.Prefs...)})
+			}
 		}
 		return x
+	}
+	// earlier exchanges: drop one, drop its locals, shorten its offer
+	for i := range c.Pre {
+		x := cp()
+		x.Pre = append(x.Pre[:i], x.Pre[i+1:]...)
+		out = append(out, x)
+		for k := range c.Pre[i].Locals {
+			y := cp()
+			y.Pre[i].Locals = append(y.Pre[i].Locals[:k], y.Pre[i].Locals[k+1:]...)
+			out = append(out, y)
+			if len(c.Pre[i].Locals[k].Prefs) > 0 {
+				z := cp()
+				z.Pre[i].Locals[k].Prefs = nil
+				out = append(out, z)
+			}
+		}
+		if n := len(c.Pre[i].Remote); n > 1 {
+			y := cp()
+			y.Pre[i].Remote = y.Pre[i].Remote[:n-1]
+			out = append(out, y)
+		}
+		for j := range c.Pre[i].Remote {
+			for k := range c.Pre[i].Remote[j].Codecs {
+				if len(c.Pre[i].Remote[j].Codecs) < 2 {
+					break
+				}
+				y := cp()
+				y.Pre[i].Remote[j].Codecs = append(y.Pre[i].Remote[j].Codecs[:k], y.Pre[i].Remote[j].Codecs[k+1:]...)
+				out = append(out, y)
+			}
+			if len(c.Pre[i].Remote[j].Exts) > 0 {
+				y := cp()
+				y.Pre[i].Remote[j].Exts = nil
+				out = append(out, y)
+			}
+			if d := c.Pre[i].Remote[j].Dir; d != 0 && d != 2 {
+				y := cp()
+				y.Pre[i].Remote[j].Dir = 2
+				out = append(out, y)
+			}
+		}
+	}
+	for i := range c.Remote {
+		if d := c.Remote[i].Dir; d != 0 && d != 2 {
+			x := cp()
+			x.Remote[i].Dir = 2
+			out = append(out, x)
+		}
 	}
 	for i := range c.Remote {
 		if len(c.Remote) > 1 {
